@@ -97,6 +97,10 @@ type NRef struct {
 	Eq    bool
 	Bind  *BRef
 	Const int // Return value
+	Fire    bool // Sentinel: its function reports 'stale' the next time it is asked (one shot)
+	Fired   bool // Sentinel: it reported 'stale' during the pass being run
+	Watched int  // Sentinel: the node it watches (-1 once unwatched)
+	Sent    incr.SentinelIncr
 	// Recycled: the library reissued this node's metadata slot to a newer node (node slabs are
 	// reused two bind rebuilds later), so the handle no longer denotes a node of its own.
 	Recycled bool
@@ -501,6 +505,23 @@ func (e *Exec) Do(op Op) (out Sample) {
 			e.newBindWith(true, e.G, -1, 0, op.Cases, op.A)
 		case "NewBind2":
 			e.newBind2(e.G, -1, 0, op.Cases, op.A, op.B)
+		case "NewSentinel":
+			var ref *NRef
+			sn := incr.Sentinel(e.G, func() bool {
+				if ref != nil && ref.Fire {
+					ref.Fire = false
+					ref.Fired = true
+					return true
+				}
+				return false
+			}, e.Nodes[op.A].INode)
+			ref = e.register("Sentinel", nil, sn, -1, 0, nil)
+			ref.Sent, ref.Watched = sn, op.A
+		case "FireSentinel":
+			e.Nodes[op.A].Fire = true
+		case "Unwatch":
+			e.Nodes[op.A].Sent.Unwatch(context.Background())
+			e.Nodes[op.A].Watched = -1
 		case "PurgeMemo":
 			e.Nodes[op.A].Bind.Memo.Cache().Purge(op.V)
 		case "ClearMemo":
